@@ -585,6 +585,16 @@ def judge_wave(case, rec):
                     "%s of wave difference +%r -%r at opposing element %r = %r, expected %r"
                     % (name, adds, subs, ok, got, want),
                     "wave-multi" if multi else "wave-single")
+    # --- "NaN in EVERY proportion" for a several-term difference includes the table direction
+    if multi:
+        P = np.asarray(part.table_proportions, dtype=float)
+        vec = P[p, :] if which == 0 else P[:, p]
+        rec.compared()
+        if not np.all(np.isnan(vec)):
+            rec.violation("table_proportions of the several-term wave difference +%r -%r = %r, "
+                          "expected NaN like its row / column proportions (and like the strand "
+                          "of the same variable)" % (adds, subs, vec.tolist()),
+                          "wave-multi-table-proportion")
 
 
 SUBCHECKS = [
